@@ -97,7 +97,7 @@ let () = register "prog" (fun ic ->
     let first = ref true in
     let emit s = (if not !first then Buffer.add_char out ';'); first := false; Buffer.add_string out s in
     let wr name op =
-      let (c', ok) = wstep !c op in
+      let (c', ok) = sf_wstep !c op in
       c := c'; emit (name ^ (if ok then " 0" else " E")) in
     List.iter (fun opline ->
       let t = split_ws opline in
